@@ -89,11 +89,14 @@ pub struct PairCase {
     /// (so that sozu's send window really goes negative)
     #[serde(default)]
     pub shrink_after_bytes: Option<usize>,
+    /// the client sends a PING once this many body bytes of the first stream arrived
+    #[serde(default)]
+    pub ping_after_bytes: Option<usize>,
 }
 
 impl PairCase {
     pub fn simple(front: Proto, back: Proto, xfers: Vec<Xfer>) -> PairCase {
-        PairCase { front, back, xfers, initial_window: None, max_frame_size: None, header_table_size: None, grants: Grants::Eager, upload_frame: 16384, buffer_size: 16393, shrink_window_to: None, pace_front: None, spread_upload: false, huge_conn_window: false, h1_chunk: None, h2_padding: None, shrink_after_bytes: None, no_length: false, empty_frames: false, family: None, windowed_padding: None }
+        PairCase { front, back, xfers, initial_window: None, max_frame_size: None, header_table_size: None, grants: Grants::Eager, upload_frame: 16384, buffer_size: 16393, shrink_window_to: None, pace_front: None, spread_upload: false, huge_conn_window: false, h1_chunk: None, h2_padding: None, shrink_after_bytes: None, ping_after_bytes: None, no_length: false, empty_frames: false, family: None, windowed_padding: None }
     }
 }
 
@@ -194,6 +197,10 @@ pub fn run_pair(tag: &str, case: &PairCase, prefix: Vec<u32>, profile: ChoicePro
                     }
                 }
             }
+            if let Some(n) = case.ping_after_bytes {
+                script.push(Step::H2Await(H2Cond::BodyAtLeast(stream_ids[0], n)));
+                script.push(Step::H2Raw(h2::ping(false, [7; 8])));
+            }
             if let Some(w) = case.shrink_window_to {
                 if let Some(n) = case.shrink_after_bytes {
                     script.push(Step::H2Await(H2Cond::BodyAtLeast(stream_ids[0], n)));
@@ -277,6 +284,11 @@ pub fn run_pair(tag: &str, case: &PairCase, prefix: Vec<u32>, profile: ChoicePro
     }
     let end = exec.end.clone();
     let vms = exec.stats.virtual_ms;
+    if std::env::var_os("VERIF_SIM_TRACE").is_some() {
+        for l in exec.log.iter().rev().take(400).rev() {
+            eprintln!("{l}");
+        }
+    }
     let sc = worker::scenario_of(&mut exec);
     let b = &sc.peers[0];
     let c = &sc.peers[1];
@@ -345,6 +357,19 @@ pub fn run_pair(tag: &str, case: &PairCase, prefix: Vec<u32>, profile: ChoicePro
                 }
                 if let Some((last, code)) = ep.goaway {
                     flag(format!("goaway-{code}"), format!("the client received GOAWAY(last={last}, code={code}) on a well-behaved connection"));
+                }
+                // what is left unparsed is the beginning of a frame: one that announces more than
+                // any frame may carry means the framing of the connection is lost
+                {
+                    let rest = &c.conn.rx[ep.parsed.min(c.conn.rx.len())..];
+                    if rest.len() >= 9 {
+                        let announced = ((rest[0] as usize) << 16) | ((rest[1] as usize) << 8) | rest[2] as usize;
+                        if announced > case.max_frame_size.unwrap_or(16384) as usize {
+                            let ack = [0u8, 0, 0, 4, 1, 0, 0, 0, 0];
+                            let inside = c.conn.rx[..ep.parsed].windows(9).rposition(|w| w == ack).filter(|o| *o > 200);
+                            flag("h2-client-obligation:framing-lost".into(), format!("after {} bytes the connection carries {:?} where a frame header is due (a {announced}-byte frame of type {}); {} bytes follow{}", ep.parsed, &rest[..9], rest[3], rest.len() - 9, inside.map(|o| format!("; the image of a SETTINGS ACK frame sits at offset {o}, inside a DATA frame's payload")).unwrap_or_default()));
+                        }
+                    }
                 }
                 for (i, x) in case.xfers.iter().enumerate() {
                     let want = h1::coded_body((x.down % 251) as u8, x.down);
@@ -416,9 +441,19 @@ pub fn run_pair(tag: &str, case: &PairCase, prefix: Vec<u32>, profile: ChoicePro
             let log = &sc.peers[1].conn.sent_log;
             let body = if log.starts_with(h2::PREFACE) { &log[h2::PREFACE.len()..] } else { &log[..] };
             let (frames, used) = h2::split_frames(body);
+            if let Some(ep) = sc.peers[1].h2.as_ref() {
+                let rx = &sc.peers[1].conn.rx;
+                eprintln!("---- client endpoint parsed {} of {} received bytes; next bytes {:?}", ep.parsed, rx.len(), &rx[ep.parsed.min(rx.len())..(ep.parsed + 12).min(rx.len())]);
+                let ack = [0u8, 0, 0, 4, 1, 0, 0, 0, 0];
+                for (i, w) in rx.windows(9).enumerate() {
+                    if w == ack {
+                        eprintln!("     a SETTINGS ACK frame image sits at offset {i}");
+                    }
+                }
+            }
             eprintln!("---- frames sent by the client ({} bytes, {} parsed):", body.len(), used);
             for f in &frames {
-                eprintln!("  type={} flags={:#x} stream={} len={}", f.ty, f.flags, f.stream, f.payload.len());
+                eprintln!("  type={} flags={:#x} stream={} len={} {}", f.ty, f.flags, f.stream, f.payload.len(), if f.payload.len() <= 12 { format!("{:?}", f.payload) } else { String::new() });
             }
         }
         if case.front == Proto::H1 {
